@@ -40,11 +40,11 @@ def plan(tier: str, seed: int) -> list[dict]:
     q = tier == "quick"
     specs = []
     for i in range(3 if q else 6):
-        specs.append({"name": f"sizes-{i}", "fn": "shard_sizes", "cases": 1200 if q else 12000, "_budget_s": 80 if q else 900, "_timeout_s": 500 if q else 2400})
+        specs.append({"name": f"sizes-{i}", "fn": "shard_sizes", "cases": 1200 if q else 12000, "_budget_s": 150 if q else 900, "_timeout_s": 500 if q else 2400})
     for i in range(6 if q else 10):
-        specs.append({"name": f"estimate-{i}", "fn": "shard_estimate", "flows": 150 if q else 2500, "part": i, "_budget_s": 80 if q else 900, "_timeout_s": 500 if q else 2400})
+        specs.append({"name": f"estimate-{i}", "fn": "shard_estimate", "flows": 150 if q else 2500, "part": i, "_budget_s": 150 if q else 900, "_timeout_s": 500 if q else 2400})
     for i in range(4 if q else 6):
-        specs.append({"name": f"funding-{i}", "fn": "shard_funding", "cases": 400 if q else 5000, "_budget_s": 80 if q else 900, "_timeout_s": 500 if q else 2400})
+        specs.append({"name": f"funding-{i}", "fn": "shard_funding", "cases": 400 if q else 5000, "_budget_s": 150 if q else 900, "_timeout_s": 500 if q else 2400})
     specs.append({"name": "fees-amounts", "fn": "shard_fees", "cases": 90000 if q else 800000, "_budget_s": 70 if q else 800, "_timeout_s": 500 if q else 2400})
     return specs
 
